@@ -28,8 +28,9 @@ def translate_variant(pid: str, tie_lemmas: str):
 
 def cq_variant(v):
     b = lambda x: "true" if x else "false"
-    return ("{| release_if_holds := %s; recheck_on_skip := %s; ctx_strict := %s; pending_owner_safe := %s |}"
-            % (b(v["release_if_holds"]), b(v["recheck_on_skip"]), b(v["ctx_strict"]), b(v["pending_owner_safe"])))
+    return ("{| release_if_holds := %s; recheck_on_skip := %s; ctx_strict := %s; pending_owner_safe := %s; ctx_exact := %s |}"
+            % (b(v["release_if_holds"]), b(v["recheck_on_skip"]), b(v["ctx_strict"]), b(v["pending_owner_safe"]),
+               b(v.get("ctx_exact", True))))
 
 
 RES = ["r0", "r1"]
